@@ -28,7 +28,7 @@ def new_result(name):
 
 def sym_run(name, make, pre, body, post, case_of, scenarios=None,
             engine_opts=None, max_paths=None, budget_s=None, bounds=None,
-            sample_every=0, pins=None, ranges=None):
+            sample_every=0, pins=None, ranges=None, scenarios_z3=None):
     """Explore `body(make(eng))` over all inputs satisfying pre.
 
     make(eng)            -> inputs (re-created on every path)
@@ -101,6 +101,11 @@ def sym_run(name, make, pre, body, post, case_of, scenarios=None,
                 for k, v in scenarios(inp).items():
                     if v and k not in res["scenarios"]:
                         res["scenarios"][k] = case_of(e.model_of(), inp)
+            if scenarios_z3 is not None:
+                for k, zc in scenarios_z3(inp).items():
+                    if k not in res["scenarios"]:
+                        if e.check(zc) == z3.sat:
+                            res["scenarios"][k] = case_of(e.model_of(e.s.model()), inp)
             if sample_every and (res["paths"] % sample_every == 0) and len(res["samples"]) < 5:
                 res["samples"].append(case_of(e.model_of(), inp))
 
